@@ -4,7 +4,7 @@
   the DC and Nyquist responses of the cited state-variable designs (unity pass band, the requested
   gain on the shelf side); the compressor leaves signals below the threshold untouched and above
   it its envelope error contracts by `exp(-dt/τ)` per frame towards (level − threshold), i.e. the
-  gain reduction converges to (level − threshold)(1 − 1/ratio) dB; distortion is
+  gain reduction converges to (level − threshold)(1 − 1/ratio) dB (0 dB for a ratio of 0); distortion is
   `clamp(x·d, −1, 1)/d` resp. `x/(1 + |x·d|)` and transparent for small signals.
 
   Statements are about Model/Effects/*.lean over ℝ, with parameters at rest (see C13_a).
@@ -524,9 +524,9 @@ theorem Compressor.over_quiet (thr x : ℝ) (h : Compressor.Quiet thr x) : Compr
 
 /-- **below the threshold from rest** (`C14_compressor`, part 1): fully wet, with the envelopes
     at 0 and every sample at or below the threshold, the output is *exactly* the input times the
-    make-up gain `10^(makeup/20)` — for every ratio ≠ 0, attack, release, `dt` and slice length —
+    make-up gain `10^(makeup/20)` — for EVERY ratio (0 included), attack, release, `dt` and slice length —
     and the envelopes stay at 0. -/
-theorem C14_compressor_below_threshold (s : Compressor ℝ) (h : s.Stagnant) (_hr : s.ratio.raw ≠ 0)
+theorem C14_compressor_below_threshold (s : Compressor ℝ) (h : s.Stagnant)
     (hm : 1 ≤ s.mix.raw) (h1 : s.envL = 0) (h2 : s.envR = 0) (xs : List (Frame ℝ))
     (hq : ∀ f ∈ xs, Compressor.Quiet s.threshold.raw f.left ∧ Compressor.Quiet s.threshold.raw f.right)
     (dt : ℝ) (info : Info ℝ) :
@@ -600,15 +600,19 @@ theorem C14_compressor_constant_level (s : Compressor ℝ) (h : s.Stagnant) (f :
 
 /-- **the gain reduction converges** (`C14_compressor`, part 4): for a constant level above the
     threshold (`level = 20·log10|x| ≥ threshold`) the envelope from rest tends to
-    `level − threshold` and the applied gain `envelope · (1/ratio − 1)` dB tends to
-    `−(level − threshold)(1 − 1/ratio)` dB. -/
+    `level − threshold` and the applied gain `envelope · slope` dB tends to `(level − threshold) · slope`,
+    which is the documented `−(level − threshold)(1 − 1/ratio)` dB for every ratio ≠ 0 and 0 dB (dynamics
+    unchanged, like a ratio of 1) for a ratio of 0. -/
 theorem C14_compressor_gain_reduction_converges (a r : ℕ) (dt : ℝ) (hdt : 0 < dt) (thr ratio x : ℝ)
     (hx : x ≠ 0) (hlevel : thr ≤ 20 * Real.logb 10 |x|) :
     Compressor.overDecibels thr x = 20 * Real.logb 10 |x| - thr
       ∧ _root_.Filter.Tendsto (fun n : ℕ => (Compressor.follow a r dt (Compressor.overDecibels thr x))^[n] 0) _root_.Filter.atTop
           (𝓝 (20 * Real.logb 10 |x| - thr))
-      ∧ _root_.Filter.Tendsto (fun n : ℕ => (Compressor.follow a r dt (Compressor.overDecibels thr x))^[n] 0 * (1 / ratio - 1))
-          _root_.Filter.atTop (𝓝 (-((20 * Real.logb 10 |x| - thr) * (1 - 1 / ratio)))) := by
+      ∧ _root_.Filter.Tendsto (fun n : ℕ => (Compressor.follow a r dt (Compressor.overDecibels thr x))^[n] 0 * Compressor.slope ratio)
+          _root_.Filter.atTop (𝓝 ((20 * Real.logb 10 |x| - thr) * Compressor.slope ratio))
+      ∧ (ratio ≠ 0 → (20 * Real.logb 10 |x| - thr) * Compressor.slope ratio
+          = -((20 * Real.logb 10 |x| - thr) * (1 - 1 / ratio)))
+      ∧ (ratio = 0 → (20 * Real.logb 10 |x| - thr) * Compressor.slope ratio = 0) := by
   have ho : Compressor.overDecibels thr x = 20 * Real.logb 10 |x| - thr := by
     rw [Compressor.overDecibels_real thr x hx]; exact max_eq_left (by linarith)
   have hs := Compressor.speed_mem a dt hdt
@@ -623,24 +627,33 @@ theorem C14_compressor_gain_reduction_converges (a r : ℕ) (dt : ℝ) (hdt : 0 
     simp only [hform]
     have := (hpow.mul_const (0 - (20 * Real.logb 10 |x| - thr))).const_add (20 * Real.logb 10 |x| - thr)
     simpa using this
-  refine ⟨ho, henv, ?_⟩
-  have := henv.mul_const (1 / ratio - 1)
-  have e : (20 * Real.logb 10 |x| - thr) * (1 / ratio - 1)
-      = -((20 * Real.logb 10 |x| - thr) * (1 - 1 / ratio)) := by ring
-  rw [e] at this
-  exact this
+  refine ⟨ho, henv, henv.mul_const (Compressor.slope ratio), fun hr => ?_, fun hr => ?_⟩
+  · rw [Compressor.slope_of_ne_zero ratio hr]; ring
+  · rw [hr, Compressor.slope_zero]; ring
 
 /-- **what the envelope does to the signal**: fully wet, each channel is multiplied by
-    `10^(envelope' · (1/ratio − 1) / 20)` (`envelope'` the updated follower) and by the make-up gain. -/
+    `10^(envelope' · slope / 20)` (`envelope'` the updated follower; `slope = 1/ratio − 1`, and 0 for a
+    ratio of 0: `Compressor.slope_real`) and by the make-up gain — for ANY ratio; a ratio of 0 gives the
+    factor `10^0 = 1`: only the make-up gain is applied. -/
 theorem C14_compressor_output (s : Compressor ℝ) (dt : ℝ) (hm : 1 ≤ s.mix.raw) (v : ℝ × ℝ) (f : Frame ℝ) :
     (Compressor.tickV s dt v f).2
-      = ⟨(10 : ℝ) ^ ((Compressor.tickV s dt v f).1.1 * (1 / s.ratio.raw - 1) / 20) * f.left
+      = ⟨(10 : ℝ) ^ ((Compressor.tickV s dt v f).1.1 * Compressor.slope s.ratio.raw / 20) * f.left
             * (10 : ℝ) ^ (s.makeupGain.raw / 20),
-         (10 : ℝ) ^ ((Compressor.tickV s dt v f).1.2 * (1 / s.ratio.raw - 1) / 20) * f.right
+         (10 : ℝ) ^ ((Compressor.tickV s dt v f).1.2 * Compressor.slope s.ratio.raw / 20) * f.right
+            * (10 : ℝ) ^ (s.makeupGain.raw / 20)⟩
+      ∧ (s.ratio.raw ≠ 0 → Compressor.slope s.ratio.raw = 1 / s.ratio.raw - 1)
+      ∧ (s.ratio.raw = 0 → (Compressor.tickV s dt v f).2 = ((10 : ℝ) ^ (s.makeupGain.raw / 20)) • f) := by
+  have hout : (Compressor.tickV s dt v f).2
+      = ⟨(10 : ℝ) ^ ((Compressor.tickV s dt v f).1.1 * Compressor.slope s.ratio.raw / 20) * f.left
+            * (10 : ℝ) ^ (s.makeupGain.raw / 20),
+         (10 : ℝ) ^ ((Compressor.tickV s dt v f).1.2 * Compressor.slope s.ratio.raw / 20) * f.right
             * (10 : ℝ) ^ (s.makeupGain.raw / 20)⟩ := by
-  simp only [Compressor.tickV, Compressor.tick, clamp01_of_ge_one _ hm, dryWet_wet,
-    Compressor.reductionAmplitude]
-  ext <;> simp
+    simp only [Compressor.tickV, Compressor.tick, clamp01_of_ge_one _ hm, dryWet_wet,
+      Compressor.reductionAmplitude]
+    ext <;> simp
+  refine ⟨hout, Compressor.slope_of_ne_zero _, fun h0 => ?_⟩
+  rw [hout, h0, Compressor.slope_zero]
+  ext <;> simp <;> ring
 
 /-! ## distortion -/
 
